@@ -379,9 +379,33 @@ Qed.
 Lemma skipn_length_app {A} : forall (l1 l2 : list A), skipn (length l1) (l1 ++ l2) = l2.
 Proof. induction l1 as [|x l1 IH]; intros l2; [reflexivity|]. cbn. apply IH. Qed.
 
+(** Seek probes with bornSn 0: the insert comparator then advances exactly as the key-only one *)
+Lemma span_ext {A} (f g : A -> bool) : (forall x, f x = g x) -> forall l, span f l = span g l.
+Proof.
+  intros H. induction l as [|x l IH]; [reflexivity|].
+  cbn [span]. rewrite (H x), IH. reflexivity.
+Qed.
+
+Lemma before_ins_0 : forall bs v, before_ins kcmp bs 0 v = before_key kcmp bs v.
+Proof.
+  intros bs v. unfold before_ins, before_key, ins_cmp.
+  destruct (kcmp (vitem v) bs); try reflexivity.
+  destruct (vborn v ?= 0) eqn:E; try reflexivity.
+  exfalso. rewrite N.compare_lt_iff in E. exact (N.nlt_0_r _ E).
+Qed.
+
+Lemma ins_pos_0 : forall s bs, ins_pos kcmp s bs 0 = key_pos kcmp s bs.
+Proof.
+  intros s bs. unfold ins_pos, key_pos.
+  rewrite (span_ext _ _ (before_ins_0 bs) s). reflexivity.
+Qed.
+
 Lemma it_seek_pos : forall s it bs,
   it_pos (it_seek kcmp s it bs) = skip_pos (S (length s)) s (it_sn it) (key_pos kcmp s bs).
-Proof. intros s it bs. unfold it_seek. rewrite it_skip_pos. reflexivity. Qed.
+Proof.
+  intros s it bs. unfold it_seek. rewrite it_skip_pos. cbn [it_sn it_pos].
+  rewrite ins_pos_0. reflexivity.
+Qed.
 
 Lemma seek_exact : stmt_seek_exact kcmp.
 Proof.
@@ -396,41 +420,44 @@ Proof.
 Qed.
 
 (** ** refresh does not move *)
-Lemma refresh_pos_gen : forall cur s sn p v, store_inv kcmp cur s ->
-  nth_error s p = Some v -> visible sn v = true ->
-  skip_pos (S (length s)) s sn (key_pos kcmp s (vitem v)) = p.
+Lemma before_ins_vlt : forall w v, vlt kcmp w v -> before_ins kcmp (vitem v) (vborn v) w = true.
 Proof.
-  intros cur s sn p v Hinv Hp V.
-  pose proof (si_sorted _ _ _ Hinv) as Hsorted.
-  destruct (key_pos_split s (vitem v) Hsorted) as (l1 & l2 & Hs & Hk & H1 & H2).
-  rewrite Hk.
-  assert (Hself : before_key kcmp (vitem v) v = false).
-  { unfold before_key. rewrite kc_refl. reflexivity. }
-  assert (Hle : (length l1 <= p)%nat).
-  { destruct (Nat.le_gt_cases (length l1) p) as [H|H]; [exact H|exfalso].
-    rewrite Hs in Hp. rewrite nth_error_app1 in Hp by exact H.
-    apply nth_error_In in Hp. rewrite Forall_forall in H1. rewrite (H1 v Hp) in Hself. discriminate. }
-  apply skip_pos_unique; [lia|exact Hle| |right; exists v; split; assumption].
-  intros i Hi.
-  assert (Hlt : (i < length s)%nat).
-  { assert ((p < length s)%nat) by (apply nth_error_Some; rewrite Hp; discriminate). lia. }
-  destruct (nth_error s i) as [w|] eqn:Ew; [|apply nth_error_None in Ew; lia].
-  exists w. split; [reflexivity|].
-  assert (Hw2 : before_key kcmp (vitem v) w = false).
-  { rewrite Hs in Ew. rewrite nth_error_app2 in Ew by lia. apply nth_error_In in Ew.
-    rewrite Forall_forall in H2. apply H2. exact Ew. }
-  assert (Hwv : vlt kcmp w v) by (apply (sorted_nth s i p w v Hsorted); [lia|exact Ew|exact Hp]).
-  destruct Hwv as [Hl|[He Hb]].
-  - unfold before_key in Hw2. rewrite Hl in Hw2. discriminate.
-  - destruct (si_succ _ _ _ Hinv w v) as [Hd1 Hd2];
-      [eapply nth_error_In; exact Ew|eapply nth_error_In; exact Hp|exact He|exact Hb|].
-    unfold visible in *. lia.
+  intros w v [Hl|[He Hb]]; unfold before_ins, ins_cmp.
+  - rewrite Hl. reflexivity.
+  - rewrite He. apply N.compare_lt_iff in Hb. rewrite Hb. reflexivity.
+Qed.
+
+Lemma before_ins_self : forall v, before_ins kcmp (vitem v) (vborn v) v = false.
+Proof.
+  intros v. unfold before_ins, ins_cmp. rewrite kc_refl, N.compare_refl. reflexivity.
+Qed.
+
+(** the insert comparator finds a stored version at its own position *)
+Lemma ins_pos_self : forall s p v, sorted kcmp s -> nth_error s p = Some v ->
+  ins_pos kcmp s (vitem v) (vborn v) = p.
+Proof.
+  intros s p v Hsorted Hp. unfold ins_pos.
+  assert (Hlt : (p < length s)%nat) by (apply nth_error_Some; rewrite Hp; discriminate).
+  rewrite <- (firstn_skipn p s) at 1. rewrite (skipn_nth_some s p v Hp).
+  rewrite span_split.
+  - cbn [span]. rewrite before_ins_self. cbn [fst]. rewrite app_nil_r.
+    rewrite firstn_length. lia.
+  - apply Forall_forall. intros w Hw. apply before_ins_vlt.
+    apply In_nth_error in Hw. destruct Hw as [i Hi].
+    assert (Hil : (i < p)%nat).
+    { assert (H : (i < length (firstn p s))%nat) by (apply nth_error_Some; rewrite Hi; discriminate).
+      rewrite firstn_length in H. lia. }
+    apply (sorted_nth s i p w v Hsorted Hil); [|exact Hp].
+    rewrite <- (firstn_skipn p s). rewrite nth_error_app1; [exact Hi|].
+    rewrite firstn_length. lia.
 Qed.
 
 Lemma refresh_pos : stmt_refresh_pos kcmp.
 Proof.
   intros cur s it v Hinv Hg V. unfold it_refresh. rewrite Hg. rewrite it_skip_pos. cbn [it_sn it_pos].
-  apply (refresh_pos_gen cur); assumption.
+  unfold it_get in Hg.
+  rewrite (ins_pos_self s (it_pos it) v (si_sorted _ _ _ Hinv) Hg).
+  cbn [skip_pos]. rewrite Hg, V. reflexivity.
 Qed.
 
 Lemma next_ok_inv : forall cur s sn rate, store_inv kcmp cur s -> next_ok s sn rate.
